@@ -633,7 +633,7 @@ def queue_generated(ctx, tools, enums, runner, srcs):
     return cases, {name: ast for name, ast, src in progs}
 
 
-GEN_QUICK = 200
+GEN_QUICK = 320
 GEN_THOROUGH = 700
 
 
